@@ -177,6 +177,7 @@ def case_for(prop, tier, seed, idx):
     case = pm.generate(rng, tier, idx)
     case.setdefault("cfg", {})
     case["cfg"].setdefault("order_seed", rs & 0xFFFFFFFF)
+    case["cfg"].setdefault("focus", prop)
     return json.loads(cjson(case))      # force JSON-ability (and a private copy)
 
 
